@@ -305,6 +305,14 @@ impl Timer {
     }
 }
 
+#[cfg(feature = "verif_hooks")]
+impl Timer {
+    /// Uncached `measure_precision`, for the verification harness.
+    pub fn verif_measure_precision(self) -> FineDuration {
+        self.measure_precision()
+    }
+}
+
 /// [`Timer`] kind.
 #[derive(Clone, Copy, Default)]
 pub(crate) enum TimerKind {
